@@ -69,6 +69,14 @@ CLAIMS = {
             "TargetName::resolved; clean_name's refusals dominate Ok and TargetName is built only via "
             "new(). Normalisation arithmetic and symlinks inside outdir are not decided.",
             "DESIGN.md §4 C08"),
+    "C15": ("who-may-write query (file-system effect table over resolved callees of datastore.rs) + MIR "
+            "dominance/value-origin analysis of Datastore::create and of every Datastore::create call site",
+            "Decides for every call path that stored trust state is only removed (Datastore::remove) or "
+            "replaced by temp-file-in-the-same-directory -> successful write -> persist (atomic rename) "
+            "and that only documents that passed verify_role are stored: whatever the crash point or "
+            "failing write, the directory holds the old or the new complete, previously verified file. "
+            "fsync/power-loss durability is outside the claim.",
+            "DESIGN.md §4 C15"),
 }
 
 NOT_YET = {}
